@@ -266,7 +266,7 @@ pub struct World {
     rwlocks: Vec<loom::sync::RwLock<()>>,
     condvars: Vec<loom::sync::Condvar>,
     notifies: Vec<loom::sync::Notify>,
-    senders: Vec<loom::sync::mpsc::Sender<i128>>,
+    senders: Vec<RefCell<Option<loom::sync::mpsc::Sender<i128>>>>,
     receivers: Vec<RefCell<Option<ManuallyDrop<loom::sync::mpsc::Receiver<i128>>>>>,
     // dynamic state; everything with a destructor that talks to loom is `ManuallyDrop`
     mguards: RefCell<HashMap<(usize, usize), ManuallyDrop<MGuard>>>,
@@ -300,7 +300,7 @@ impl World {
         let mut receivers = Vec::new();
         for _ in 0..c.n_chans {
             let (tx, rx) = loom::sync::mpsc::channel();
-            senders.push(tx);
+            senders.push(RefCell::new(Some(tx)));
             receivers.push(RefCell::new(Some(ManuallyDrop::new(rx))));
         }
         // one AtomicWaker (an `rt::Mutex` object) per scripted future, after the declared objects
@@ -443,6 +443,12 @@ pub fn run_thread(w: Rc<World>, body: usize) {
             } else {
                 pc += 1 + n;
             }
+            continue;
+        }
+        if let Op::DropTx(q) = op {
+            // nothing loom knows about: no event, like `ifeq`
+            drop(w.senders[*q].borrow_mut().take().expect("harness: droptx twice"));
+            pc += 1;
             continue;
         }
         let ret = exec_op(&w, tid, op);
@@ -621,9 +627,10 @@ fn exec_op(w: &Rc<World>, tid: usize, op: &Op) -> Ret {
             loom::thread::yield_now();
             Ret::Unit
         }
-        Op::IfEq(..) => unreachable!(),
+        Op::IfEq(..) | Op::DropTx(..) => unreachable!(),
         Op::Send(q, v) => {
-            let _ = w.senders[*q].send(*v);
+            let s = unsafe { &*w.senders[*q].as_ptr() };
+            let _ = s.as_ref().expect("harness: send after droptx").send(*v);
             Ret::Unit
         }
         Op::Recv(q) => {
@@ -634,7 +641,8 @@ fn exec_op(w: &Rc<World>, tid: usize, op: &Op) -> Ret {
             let r = unsafe { &*w.receivers[*q].as_ptr() };
             match r.as_ref().expect("harness: tryrecv after droprx").try_recv() {
                 Ok(v) => Ret::Val(v),
-                Err(_) => Ret::Empty,
+                Err(std::sync::mpsc::TryRecvError::Empty) => Ret::Empty,
+                Err(std::sync::mpsc::TryRecvError::Disconnected) => Ret::Err(1),
             }
         }
         Op::DropRx(q) => {
